@@ -16,6 +16,7 @@ func init() {
 			"(R17.1) lock typestate of the patched linker: in PatchLinker the file lock is taken before the stamp is read, the sources are patched, the linker is built and the stamp is written; on every error return the lock is released by the flag-guarded defer and on every success return it is handed to the caller, who defers the release after having run the linker; " +
 			"(R17.2) every file garble creates under a directory that other garble processes can see is created exclusively (O_CREATE|O_EXCL, CreateTemp, MkdirTemp), or is written under the linker lock, or goes through the content-addressed cache API; the reviewed in-place rewrite is the only exception; " +
 			"(R17.3) garble has no goroutines, so its unsynchronised scratch globals cannot race, and the per-process cache handle is a sync.OnceValues; " +
+			"(R17.4) the patched linker, which all garble processes share and whose stamp does not name a target, is built with GOOS/GOARCH/GOFLAGS/GOEXPERIMENT/GOENV overridden after the inherited environment; " +
 			"(R18.3, shared with C18) the directory a top-level command shares with its toolexec children is a fresh os.MkdirTemp, so two invocations never meet in it. " +
 			"Does not decide any actual interleaving, nor the atomicity of cmd/go, lockedfile or the cache library.",
 		perConfig: checkC17,
@@ -67,6 +68,7 @@ func checkC17(c *Ctx) {
 	w := c.W
 	checkLockTypestate(c, "R17.1")
 	ruleFreshSharedDir(c)
+	ruleLinkerBuiltForHost(c)
 
 	// R17.2 ---------------------------------------------------------------
 	c.Rule("R17.2", "files visible to other garble processes are created exclusively, under the linker lock, or through the cache API", 20)
@@ -338,4 +340,67 @@ func checkLockTypestate(c *Ctx, rule string) {
 
 func isBoolCell(al *ssa.Alloc) bool {
 	return al.Type().String() == "*bool"
+}
+
+// ruleLinkerBuiltForHost is R17.4. The cached linker is shared by every garble process and
+// its stamp records Go version, patches and size, not the target. It must therefore always
+// be built for the host, whatever GOOS/GOARCH/GOFLAGS the process that wins the lock inherited
+// from a cross build. os/exec keeps the LAST value of a duplicated key, so the overrides
+// must be appended after the inherited environment.
+func ruleLinkerBuiltForHost(c *Ctx) {
+	w := c.W
+	c.Rule("R17.4", "the shared linker is built for the host: target-related variables are overridden after the inherited environment", 1)
+	bl := w.Fn("linker.buildLinker")
+	if bl == nil {
+		c.Undecided("R17.4", "buildLinker environment", "", "buildLinker not found")
+		return
+	}
+	found, bad := false, ""
+	for _, b := range bl.Blocks {
+		for _, in := range b.Instrs {
+			st, ok := in.(*ssa.Store)
+			if !ok {
+				continue
+			}
+			fa, ok := st.Addr.(*ssa.FieldAddr)
+			if !ok || namedOf(fa.X.Type()) != "Cmd" || fieldName(fa.X.Type(), fa.Field) != "Env" {
+				continue
+			}
+			found = true
+			app, ok := st.Val.(*ssa.Call)
+			if !ok || calleeName(app) != "builtin.append" || len(app.Call.Args) != 2 {
+				bad = "cmd.Env is not built as append(<inherited environment>, overrides...)"
+				continue
+			}
+			isEnviron := func(v ssa.Value) bool {
+				call, ok := v.(*ssa.Call)
+				return ok && (calleeName(call) == "(*os/exec.Cmd).Environ" || calleeName(call) == "os.Environ")
+			}
+			inheritedFirst := isEnviron(app.Call.Args[0])
+			inheritedLast := isEnviron(app.Call.Args[1])
+			overrides := map[string]bool{}
+			for _, e := range variadicElems(app.Call.Args[1]) {
+				if k, ok := constString(e); ok {
+					overrides[k] = true
+				}
+			}
+			var missing []string
+			for _, k := range []string{"GOOS=", "GOARCH=", "GOFLAGS=", "GOEXPERIMENT=", "GOENV=off"} {
+				if !overrides[k] {
+					missing = append(missing, k)
+				}
+			}
+			switch {
+			case inheritedLast || !inheritedFirst:
+				bad = "the inherited environment comes after the overrides (or is not the base of the append): os/exec keeps the last value of a duplicate key, so a process started by a cross build (GOARCH=arm64) builds the shared linker for that target, stamps it valid, and every build on that cache fails with 'exec format error'"
+			case len(missing) > 0:
+				bad = "the linker build no longer overrides " + strings.Join(missing, ", ")
+			}
+		}
+	}
+	if !found {
+		c.Undecided("R17.4", "buildLinker environment", w.Pos(bl.Pos()), "buildLinker does not set cmd.Env")
+		return
+	}
+	c.Check(bad == "", "R17.4", "buildLinker environment", w.Pos(bl.Pos()), "append(cmd.Environ(), GOENV=off, GOOS=, GOARCH=, GOEXPERIMENT=, GOFLAGS=)", bad)
 }
